@@ -239,55 +239,68 @@ impl<W: Write + io::Seek> ZipWriter<W> {
 //@include spec/dir_parsed.rs
 pub open spec fn dir_start_of(files: Seq<ZipFileData>) -> int { if files.len() > 0 { files[0].central_header_start as int } else { 0 } }
 pub uninterp spec fn append_offset(files: Seq<ZipFileData>, d: Seq<u8>) -> u64;
-// T7x in new_append: `(0..n).map(|_| central_header_to_zip_file(..)).collect::<Result<Vec<_>, _>>()?`
-// TRANSCRIPTION of `(0..n).map(|_| f()).collect::<Result<Vec<_>, _>>()` (std: the adapter calls the closure once per index, in
-// order, and `collect` into Result stops at the first Err, otherwise gathers the Ok values in order).  The body is VERIFIED
-// against central_header_to_zip_file's proved contract; it is the same loop that is proved for ZipArchive::new in unit U8b.
-fn shim_collect_central<R: Read + io::Seek>(reader: &mut R, archive_offset: u64, n: usize) -> (r: ZipResult<Vec<ZipFileData>>)
-    requires dev_ok(old(reader)),
-    ensures
-        rd_step(old(reader), final(reader)),
-        r is Ok ==> final(reader).g_fault() == old(reader).g_fault(),
-        r matches Ok(files) ==> files@.len() == n && dir_parsed(old(reader).g_bytes(), old(reader).g_pos(), files@, archive_offset),
-{
-    let ghost d = reader.g_bytes();
-    let ghost start = reader.g_pos();
-    let ghost flt = reader.g_fault();
-    let mut files: Vec<ZipFileData> = Vec::new();
-    let mut i: usize = 0;
-    while i < n
-        invariant
-            dev_ok(reader), reader.g_bytes() == d, reader.g_fault() == flt, rd_step(old(reader), reader),
-            d == old(reader).g_bytes(), start == old(reader).g_pos(), flt == old(reader).g_fault(),
-            i <= n, files@.len() == i,
-            reader.g_pos() == cd_pos(d, start, i as int),
-            dir_parsed(d, start, files@, archive_offset),
-        decreases n - i,
-    {
-        let ghost fs0 = files@;
-        let file = central_header_to_zip_file(reader, archive_offset)?;
-        files.push(file);
-        i += 1;
-        proof {
-            assert(forall|j: int| 0 <= j < fs0.len() ==> files@[j] == fs0[j]);
-            assert(files@[fs0.len() as int] == file);
-        }
-    }
-    Ok(files)
-}
 // parsed entries carry DOS times, whose year is at least 1980 (DateTime::from_msdos, proved in U6)
 pub proof fn lemma_parsed_files_ok(d: Seq<u8>, start: int, files: Seq<ZipFileData>, aoff: u64)
-    requires dir_parsed(d, start, files, aoff)
+    requires dir_parsed_append(d, start, files, aoff)
     ensures files_ok(files)
 {
     assert forall|i: int| 0 <= i < files.len() implies (#[trigger] files[i]).last_modified_time.year >= 1980 by {
         let h = dec_cdh(d, cd_pos(d, start, i));
-        assert(parsed_matches(files[i], h, cd_pos(d, start, i) as u64, aoff));
+        assert(parsed_matches_but_extra(files[i], h, cd_pos(d, start, i) as u64, aoff));
         assert(files[i].last_modified_time == msdos_dt(h.date, h.time));
         let dd: u16 = h.date;
         assert(((dd & 0b1111111000000000) >> 9) <= 127) by(bit_vector);
     }
 }
+// ---- the extra field without its ZIP64 records (F29): shift lemmas for the record walk over a concatenation, then
+// "what without_zip64_extra_field returns contains no ZIP64 record" by induction over the records
+pub proof fn lemma_has_z64_shift(a: Seq<u8>, b: Seq<u8>, q: int)
+    requires 0 <= q <= b.len()
+    ensures has_z64(a + b, a.len() + q) == has_z64(b, q)
+    decreases b.len() - q
+{
+    let y = a + b;
+    let p = a.len() + q;
+    if b.len() - q >= 4 {
+        assert(at(y, p, 2) =~= at(b, q, 2));
+        assert(at(y, p + 2, 2) =~= at(b, q + 2, 2));
+        assert(xlen(y, p) == xlen(b, q) && xkind(y, p) == xkind(b, q));
+        if xlen(b, q) <= b.len() - q - 4 {
+            lemma_has_z64_shift(a, b, q + 4 + xlen(b, q));
+        }
+    }
+}
+// @props: C13 C02 C08 -- the extra field new_append keeps contains no ZIP64 record, so finalize emits exactly the regenerated one
+pub proof fn lemma_strip_has_no_z64(x: Seq<u8>, pos: int)
+    requires 0 <= pos <= x.len()
+    ensures !has_z64(strip_z64(x, pos), 0)
+    decreases x.len() - pos
+{
+    let y = strip_z64(x, pos);
+    if x.len() - pos >= 4 {
+        let e = xend(x, pos);
+        lemma_strip_has_no_z64(x, e);
+        let rest = strip_z64(x, e);
+        if xkind(x, pos) != 0x0001 {
+            let rec = x.subrange(pos, e);
+            assert(y == rec + rest);
+            assert(at(y, 0, 2) =~= at(x, pos, 2));
+            assert(at(y, 2, 2) =~= at(x, pos + 2, 2));
+            assert(xkind(y, 0) == xkind(x, pos) && xlen(y, 0) == xlen(x, pos));
+            if xlen(x, pos) > x.len() - pos - 4 {
+                // the record overruns the field: it is the last thing kept, and the walk stops at it
+                assert(rest =~= Seq::<u8>::empty());
+                assert(y =~= rec);
+            } else {
+                lemma_has_z64_shift(rec, rest, 0);
+                assert(rec.len() == 4 + xlen(x, pos));
+            }
+        } else {
+            assert(y =~= rest);
+        }
+    }
+}
+//@use without_zip64_extra_field
 // T14: Drop::drop verified as an inherent method so it can carry the representation invariant as precondition.
 // It calls the same `finalize` as finish() from the same state unless the writer is already closed (C01: identical bytes).
 //@impl src/write.rs | impl<W: Write + io::Seek> Drop for ZipWriter<W>
